@@ -27,10 +27,10 @@ CHECKS = {
    technique="deterministic simulation: whole client/server system in one process over a simulated network and virtual clock with a seeded scheduler; benign network nondeterminism injected; policy-model, agreement and stream-equality oracles; ddmin-minimised replay files"),
  "C07": dict(level="fault_enumeration", design="5 (C07)",
    text="An in-path attacker is a node of the simulation between two real gmtls endpoints. Enumerated family: for seed-chosen small GMSSL sessions, one simulated run per fault position - every bit of every protected record of both directions, every truncation length, extensions, drop, duplicate, adjacent swap - so the fault-position space of a session is swept completely (sessions are sampled by seed; evidence lists per session expected vs executed positions). Sampled family: 15 fault kinds (incl. replay, cross-direction and cross-connection injection, header rewrites, FIN before/inside records) on sessions with payloads up to 16 KiB, both GM suites and TLS suites. Oracle: prefix after every Read, exactly the plaintext of the records before the first affected one (independent decoder), sticky non-EOF error, fatal alert on the wire, IV/nonce/sequence audit.",
-   note="Trusts reftls' record layer (written from the standards, cross-validated on every benign C06 session) for the expected per-record plaintext; TLS-suite sessions use the prefix+detection oracle only. CBC padding-length sweep with a reference sender is part of the scripted-peer stage.",
+   note="Trusts reftls' record layer (written from the standards, cross-validated on every benign C06 session) for the expected per-record plaintext; TLS-suite sessions use the prefix+detection oracle only. Further families added later (DESIGN 11.2/11.6): enumerated CBC padding lengths from a reference sender, sender-side transport failure inside a record, whole recorded connections replayed to fresh endpoints, duplex endpoints, an expired write deadline at the victim.",
    technique="deterministic simulation with fault injection: attacker task on a simulated network flips/truncates/drops/duplicates/reorders/replays/injects protected records at seeded or enumerated positions; history oracle from an independent decoder; ddmin-minimised replay files"),
  "C20": dict(level="exploration", design="5 (C20), 3.3",
-   text="Real gmsm code runs as tasks under a seeded cooperative scheduler that owns every interleaving at statement (~3800 inserted yield points), lock, once, atomic and network granularity (instrumented scratch copy). Six programs: one shared sm4 cipher.Block; package-level SM2/SM3/SM4/X.509/PKCS#7 operations incl. first use of the curve; LRU session cache; one CertPool; one established connection with concurrent readers, writers and Close; one server Config with simultaneous handshakes, ticket rotation and Clone. Oracles: equality with the same call run alone; porcupine linearizability (cache; connection as FIFO pipe with atomic writes); the Go race detector evaluated on the simulated interleaving - the hand-off baton between tasks is invisible to it, so a report is deterministic per seed; deadlock and panic.",
+   text="Real gmsm code runs as tasks under a seeded cooperative scheduler that owns every interleaving at statement (~3800 inserted yield points), lock, once, atomic and network granularity (instrumented scratch copy). Ten programs (DESIGN 11.2/11.6 for the later ones: renegotiation requests, deadline/Close interruption of parked calls, multi-certificate Configs, simultaneous Dial calls), the first six: one shared sm4 cipher.Block; package-level SM2/SM3/SM4/X.509/PKCS#7 operations incl. first use of the curve; LRU session cache; one CertPool; one established connection with concurrent readers, writers and Close; one server Config with simultaneous handshakes, ticket rotation and Clone. Oracles: equality with the same call run alone; porcupine linearizability (cache; connection as FIFO pipe with atomic writes); the Go race detector evaluated on the simulated interleaving - the hand-off baton between tasks is invisible to it, so a report is deterministic per seed; deadlock and panic.",
    note="Sampling of schedules (random gaps and PCT), not enumeration. The race oracle inherits the detector's bounded shadow history (can miss, cannot invent). Statement-level yields only in the files listed in DESIGN 5/C20.",
    technique="deterministic simulation: seeded cooperative scheduler over instrumented real code (statement/lock/atomic preemption), race detector as happens-before oracle under the simulated schedule, porcupine linearizability of recorded histories, ddmin-minimised replayable schedules"),
  "C08": dict(level="exploration", design="5 (C08), Appendix B",
@@ -39,7 +39,7 @@ CHECKS = {
    technique="deterministic simulation with fault injection: impostor endpoints and a rewriting man-in-the-middle as simulated nodes, per-node clock skew on a virtual clock, cross-session replay within one run; oracle = impostor never completes / no split view; ddmin-minimised replay files"),
  "C15": dict(level="exploration", design="5 (C15), Appendix C",
    text="One real gmtls endpoint (client; server in GMSSL-only, auto-switch and TLS mode) against a scripted, independent GM/T 0024 peer on the simulated network. Scripts are drawn per run from the alphabet of Appendix C: 1-3 wire deviations at drawn message positions (wrong type, duplicate, omission, truncation, rewritten length bytes, inserted application data / ChangeCipherSpec / alerts / unknown records, end of stream before or inside every record, stall with and without a virtual-time deadline), hello-level content (version sweep 0x0000..0x0400 with GM and TLS suites, suite lists, compression, ServerHello selections, certificate lists with non-EC keys) and legal variations that must still complete (fragmentation, coalescing, unknown extensions and suites). The reference peer keeps its honest transcript, so every byte-changing deviation must end in an error on the endpoint.",
-   note="Trusts the reftls endpoints (honest scripts in every batch complete against unmodified gmtls in both roles). A TLS-mode server is only exercised up to what a GM scripted client can send (ClientHello-level and record-level junk).",
+   note="Trusts the reftls endpoints (honest scripts in every batch complete against unmodified gmtls in both roles). Since round 2 the scripted peer also speaks TLS 1.2 (RSA, ECDHE on P-256/384/521 and X25519), and a second family scripts refused renegotiations (DESIGN 11.2/11.6).",
    technique="deterministic simulation with fault injection: scripted misbehaving peer and peer crash (EOF) at every record boundary and inside records on a simulated network with virtual-time deadlines; oracle = error / never complete / no panic / returns once input ended; ddmin-minimised replay files"),
  "C16": dict(level="exploration", design="5 (C16), Appendix D",
    text="Histories of up to six operations between one client session cache (capacity 1..3) and one or two server configurations are simulated: connections, ticket-key rotations (keeping or dropping the old key), restarts keeping or losing the key, suite / ClientAuth / tickets-enabled changes, cache eviction by connections to another name, clock jumps, and forged, truncated, extended or mismatched tickets offered through the independent reference client. A small reference model of the resumption policy - fed only by NewSessionTicket messages seen on the wire and the key log - decides soundness (never resume unless every condition of the property holds), completeness (exactly as far as the property states it), session identity (resumed GMSSL sessions must decode under the ORIGINAL master secret), ticket refresh after rotation, and silent fall-back.",
@@ -53,7 +53,7 @@ CHECKS = {
 ORDER = ["C04","C06","C07","C08","C15","C16","C19","C20"]
 m = {"version":1,
  "setup_cmd":"bash /verif/bin/setup.sh",
- "hooks":{"guard":"verifsim","enable":"no hook is committed to /repo: every check copies /repo's working tree to a scratch directory, runs the type-directed instrumenter /verif/rewrite over the copy (sync.Mutex/RWMutex/Once/atomic/time.Now -> simkit hooks), overlays /verif/harness as package github.com/tjfoc/gmsm/verifsim, builds and runs it, and deletes the copy","baseline_off_cmd":"cd /repo && go test -mod=mod -json -vet=off -count=1 -timeout 25m ./...","source_commits":[],"add_only":True},
+ "hooks":{"guard":"verifsim","enable":"no hook is committed to /repo: every check copies /repo's working tree to a scratch directory, runs the type-directed instrumenter /verif/rewrite over the copy (sync.Mutex/RWMutex/Once/atomic/time.Now/crypto-rand/net.Dialer.Dial -> simkit hooks; statement-level yields for C20), overlays /verif/harness as package github.com/tjfoc/gmsm/verifsim, builds and runs it, and deletes the copy","baseline_off_cmd":"cd /repo && go test -mod=mod -json -vet=off -count=1 -timeout 25m ./...","source_commits":[],"add_only":True},
  "engines":[{"name":"simkit","path":"/verif/harness/simkit","serves_properties":ORDER,"kind_free_text":"deterministic simulator: seeded choice stream, cooperative scheduler with race-detector-invisible baton, virtual clock, simulated network and stream endpoints, ddmin replay minimisation (driver in /verif/driver)"}],
  "checks":[], "not_applicable":[], "notes":"See DESIGN.md. Exit codes: 0 held, 1 VIOLATION (new), 2 harness trouble. known_findings.json lists repaired (fixed:) and recorded defects."}
 for pid in ORDER:
